@@ -87,15 +87,26 @@ pub fn eval(line: &str) -> String {
     let Some((a, b, c)) = decode3(line) else { return format!("BADCASE {line}") };
     guarded(move || {
         let cl = a.clone();
+        // `clone_from` into destinations of other shapes and sizes gives what `clone` gives
+        let mut cf_ok = true;
+        for dest in [&b, &c, &a, &Value::Null] {
+            let mut x = dest.clone();
+            x.clone_from(&a);
+            cf_ok &= pair_obs(&a, &x) == pair_obs(&a, &cl) && stream(&x) == stream(&a) && value_str(&x) == value_str(&a);
+            if let (Value::Object(oa), Value::Object(ox)) = (&a, &x) {
+                cf_ok &= crate::object::index_consistent(ox) && oa.len() == ox.len();
+            }
+        }
         format!(
-            "ab={} ba={} bc={} ac={} aa={} clone={} S={}",
+            "ab={} ba={} bc={} ac={} aa={} clone={} S={}{}",
             pair_obs(&a, &b),
             pair_obs(&b, &a),
             pair_obs(&b, &c),
             pair_obs(&a, &c),
             pair_obs(&a, &a),
             pair_obs(&a, &cl),
-            stream(&a)
+            stream(&a),
+            if cf_ok { "" } else { " CLONE-FROM-DIFFERS" }
         )
     })
 }
@@ -115,14 +126,24 @@ fn eval_hist(line: &str) -> String {
         }
         let v1 = Value::Object(o1.clone());
         let v2 = Value::Object(o2.clone());
+        let mut cf_ok = true;
+        {
+            let mut x = o2.clone();
+            x.clone_from(&o1);
+            cf_ok &= pair_obs(&o1, &x) == pair_obs(&o1, &o1.clone()) && crate::object::entries_str(&x) == crate::object::entries_str(&o1) && crate::object::index_consistent(&x);
+            let mut y = v2.clone();
+            y.clone_from(&v1);
+            cf_ok &= pair_obs(&v1, &y) == pair_obs(&v1, &v1.clone());
+        }
         format!(
-            "E1={} E2={} obj={} val={} clone={} buckets_differ={}",
+            "E1={} E2={} obj={} val={} clone={} buckets_differ={}{}",
             crate::object::entries_str(&o1),
             crate::object::entries_str(&o2),
             pair_obs(&o1, &o2),
             pair_obs(&v1, &v2),
             pair_obs(&o1, &o1.clone()),
-            (crate::object::buckets_str(&o1) != crate::object::buckets_str(&o2)) as u8
+            (crate::object::buckets_str(&o1) != crate::object::buckets_str(&o2)) as u8,
+            if cf_ok { "" } else { " CLONE-FROM-DIFFERS" }
         )
     })
 }
@@ -171,8 +192,9 @@ fn near_copy(r: &mut Rng, v: &Value) -> Value {
                     es[i].key = k.as_str().into();
                 }
                 3 => {
+                    // empty, number-like and mixed keys (orders on which numeric and lexical collation differ)
                     let i = r.below(es.len());
-                    es[i].key = "".into();
+                    es[i].key = (*r.pick(&["", "9", "10", "1a", "01", "-1", "1e1", "A", "a"])).into();
                 }
                 _ => {
                     let i = r.below(es.len());
@@ -221,7 +243,7 @@ pub fn generate(args: &Args, out: &mut Out) {
     let small = [
         "n", "f", "t", "#30", "#31", "#31,30", "#2d,31", "$-", "$61", "$61,62", "$e000", "$10000", "$ffff", "$7f", "$80",
         "[ ]", "[ n ]", "[ n n ]", "[ [ ] ]", "{ }", "{ $61 n }", "{ $61 t }", "{ $62 n }", "{ $61 n $61 n }",
-        "{ $e000 n }", "{ $10000 n }",
+        "{ $e000 n }", "{ $10000 n }", "{ $39 n }", "{ $31,30 n }", "{ $31,61 n }", "$39", "$31,30", "$31,61", "#39",
     ];
     let lim = if full { small.len() } else { 16 };
     for a in &small[..small.len()] {
